@@ -196,7 +196,7 @@ def run(tier):
     for i, (cand, t) in enumerate(acc):
         programs.append(build_program("p%05d" % i, t, cand[2], cand[3], candidate_desc(*cand), sig_of(cand)))
     gen_cmp.report_mismatches(PID, mism, out)
-    e3x = e3_extras.summary(e3_extras.c01_selection(out))
+    e3x = e3_extras.summary(e3_extras.safe(e3_extras.c01_selection, out))
     stats = run_batches(programs)
     counts = kani_runner.triage(PID, programs, out)
     wall = time.time() - t0
